@@ -168,6 +168,8 @@ class ProgramTransformer(_ast.Transformer):
                 atom = wrap(atom.location, _ast.BooleanConstant(True))
             elif atom.term.name == "false":
                 atom = wrap(atom.location, _ast.BooleanConstant(False))
+        elif atom.term.ast_type == _ast.ASTType.Function and atom.term.name in ("tel", "del"):
+            raise RuntimeError("temporal formulas do not accept arguments: {}".format(_tf.str_location(atom.location)))
         return atom
 
     def visit_Program(self, prg):
